@@ -18,9 +18,10 @@ thread_local! {
 }
 
 // The serializers are recursive, so the nesting of containers has to be limited to avoid
-// overflowing the stack. The limit matches the recursion limit that `serde_json` applies when
-// reading: more deeply nested output couldn't be read back.
-const NESTING_LIMIT: usize = 128;
+// overflowing the stack. `serde_json` reads up to 127 nested arrays and objects and reports
+// 'recursion limit exceeded' at the 128th, more deeply nested output couldn't be read back.
+// (`serde_yaml_ng` reads 128 levels, `toml` reads 81 with the top-level table included.)
+const NESTING_LIMIT: usize = 127;
 
 // Registers a container as being serialized until the guard is dropped
 struct ParentContainerGuard;
